@@ -236,7 +236,10 @@ bool Instance::rewind() {
         return false;
     }
     if (env->done) {
+        // the step that marked the script as done executed no operation,
+        // so undoing it only clears the marker
         env->done = false;
+        return true;
     }
     return RewindScript(*env);
 }
